@@ -60,7 +60,13 @@ TECH = {
 def main():
     checks = []
     na = []
+    import sys
+    sys.path.insert(0, HERE)
+    import leanio
     for pid, (level, text, ref) in sorted(P.items()):
+        if level == "proof" and not leanio.obligations_for(pid):
+            level = "other"
+            text = "(no theorem registered yet at this commit - correspondence only) " + text
         if os.path.exists(os.path.join(HERE, "props", pid.lower() + ".py")):
             checks.append(dict(
                 property_id=pid,
